@@ -32,6 +32,16 @@ def pred_sql(p):
 
 
 RETURNING = " RETURNING id, a, b"
+DML = ("insert", "update", "delete", "truncate", "upsert")
+
+
+def opname(op):
+    """statement kind as it appears in finding signatures"""
+    if op["k"] == "update":
+        return "update(%s)" % op.get("c", "")
+    if op["k"] == "upsert":
+        return "upsert(nothing)" if op["act"] == "nothing" else "upsert(on_%s_set_%s)" % (op["tgt"], op["c"])
+    return op["k"]
 
 
 def op_sql(op, table="t", returning=False):
@@ -45,6 +55,9 @@ def op_sql(op, table="t", returning=False):
         return [{"k": "exec", "sql": "UPDATE %s SET %s = %s%s%s" % (table, op["c"], lit(op["v"]), pred_sql(op["p"]), ret)}]
     if k == "delete":
         return [{"k": "exec", "sql": "DELETE FROM %s%s%s" % (table, pred_sql(op["p"]), ret)}]
+    if k == "upsert":
+        tail = "ON CONFLICT DO NOTHING" if op["act"] == "nothing" else "ON CONFLICT (%s) DO UPDATE SET %s = %s" % (op["tgt"], op["c"], lit(op["v"]))
+        return [{"k": "exec", "sql": "INSERT INTO %s VALUES (%s) %s%s" % (table, ", ".join(lit(x) for x in op["row"]), tail, ret)}]
     if k == "truncate":
         return [{"k": "exec", "sql": "TRUNCATE TABLE %s" % table}]
     if k == "reopen":
@@ -138,7 +151,7 @@ def compare_case(hist, marks, obs_at, res, nprelude_ok=True, returning=False):
         ok = "ok" in r
         if ok != st["ok"]:
             return [{"kind": "prefix_diverged", "at": i, "detail": "ok mismatch"}]
-        if ok and st["op"]["k"] in ("insert", "update", "delete", "truncate") and r["ok"].get("n") != st["n"]:
+        if ok and st["op"]["k"] in DML and r["ok"].get("n") != st["n"]:
             return [{"kind": "prefix_diverged", "at": i, "detail": "n mismatch"}]
         scan = results[marks[i][1]] if marks[i][1] is not None and marks[i][1] < len(results) else None
         if scan is None or norm_rows(scan) != expected_obs(st["rows"])["scan"]:
@@ -154,10 +167,10 @@ def compare_case(hist, marks, obs_at, res, nprelude_ok=True, returning=False):
     impl_ok = "ok" in r
     if impl_ok != last["ok"]:
         out.append({"kind": "accepts_invalid" if impl_ok else "rejects_valid", "detail": r.get("err", "")[:160]})
-    elif impl_ok and last["op"]["k"] in ("insert", "update", "delete", "truncate"):
+    elif impl_ok and last["op"]["k"] in DML:
         if r["ok"].get("n") != last["n"]:
             out.append({"kind": "affected_count", "expected": last["n"], "observed": r["ok"].get("n")})
-        if returning and last["op"]["k"] in ("insert", "update", "delete"):
+        if returning and last["op"]["k"] in ("insert", "update", "delete", "upsert"):
             want_ret = sorted([[pyval(x) for x in row] for row in last["ret"]], key=lambda x: json.dumps(x))
             got = r["ok"].get("rows")
             got_ret = sorted(got, key=lambda x: json.dumps(x)) if isinstance(got, list) else got
@@ -207,6 +220,54 @@ def compare_case(hist, marks, obs_at, res, nprelude_ok=True, returning=False):
     return out
 
 
+def upsert_why(hist):
+    """for a refused ON CONFLICT ... DO UPDATE of Relational.tla: which rule of the model refuses it (signature material)"""
+    last = hist[-1]
+    op = last["op"]
+    if op["k"] != "upsert" or last["ok"]:
+        return ""
+    pre = [tuple(r) for r in (hist[-2]["rows"] if len(hist) >= 2 else [])]
+    r = tuple(op["row"])
+    if op["act"] == "nothing":
+        return "why=row_invalid"
+    ti = 0 if op["tgt"] == "id" else 1
+    hit = [x for x in pre if x[ti] == r[ti] and r[ti] != N]
+    if not hit:
+        return "why=collision_on_the_other_key"          # an ordinary INSERT that another key refuses
+    ci = COLS.index(op["c"])
+    img = list(hit[0]); img[ci] = op["v"]
+    if ci == 2 and op["v"] == N:
+        return "why=not_null"
+    if ci == 2 and op["v"] >= 3:
+        return "why=check"
+    if ci == 1 and op["v"] != N and any(x[1] == op["v"] and x != hit[0] for x in pre):
+        return "why=unique"
+    return "why=other"
+
+
+def upsert_class(hist):
+    """Which part of the ON CONFLICT semantics of Relational.tla a behaviour exercises (signature material):
+    'do_update_branch'         the last statement is ON CONFLICT (tgt) DO UPDATE and an existing row collides on tgt
+    'conflict_on_other_key'    the last statement is ON CONFLICT (tgt) DO UPDATE, nothing collides on tgt but a row collides
+                               on the other key (the model: an ordinary INSERT, refused)
+    'after_do_update_branch'   an earlier statement of the history took the DO UPDATE branch
+    ''                         none of these"""
+    last = hist[-1]
+    op = last["op"]
+    if op["k"] == "upsert" and op["act"] == "update":
+        pre = [tuple(r) for r in (hist[-2]["rows"] if len(hist) >= 2 else [])]
+        r = tuple(op["row"])
+        ti = 0 if op["tgt"] == "id" else 1
+        oi = 1 - ti
+        if any(x[ti] == r[ti] and r[ti] != N for x in pre):
+            return "do_update_branch"
+        if any(x[oi] == r[oi] and r[oi] != N for x in pre):
+            return "conflict_on_other_key"
+    if "after_upsert_update" in features(hist):
+        return "after_do_update_branch"
+    return ""
+
+
 def features(hist):
     """spec-defined features of the last step, used in finding signatures"""
     last = hist[-1]
@@ -219,8 +280,14 @@ def features(hist):
         f.append("after_delete")
     if any(h["op"]["k"] in ("rollback", "rollback_to") for h in hist[:-1]):
         f.append("after_rollback")
+    for i, h in enumerate(hist[:-1]):
+        if h["op"]["k"] == "upsert" and h["op"]["act"] == "update" and h["ok"] and i > 0 and len(h["rows"]) == len(hist[i - 1]["rows"]):
+            f.append("after_upsert_update")       # an earlier ON CONFLICT .. DO UPDATE took its UPDATE branch
+            break
     if last.get("intxn"):
         f.append("in_txn")
     if op["k"] == "insert" and len(op["rows"]) > 1:
         f.append("multi_row")
+    if op["k"] == "upsert" and upsert_why(hist):
+        f.append(upsert_why(hist))
     return f
